@@ -192,6 +192,17 @@ fn simplify_candidates(spec: &Spec, i: usize) -> Vec<Spec> {
     out
 }
 
+static STATUS_PATH: std::sync::OnceLock<String> = std::sync::OnceLock::new();
+
+/// execution used by the minimiser: the candidate spec is written to the status file first, so
+/// that a candidate which makes a library call hang is the one the driver reports
+fn exec_noted(spec: &Spec, prop: &str) -> RunResult {
+    if let Some(p) = STATUS_PATH.get() {
+        let _ = std::fs::write(p, format!("spec:{}\n", serde_json::to_string(spec).unwrap_or_default()));
+    }
+    exec(spec, prop)
+}
+
 fn same_failure(a: &Violation, b: &Option<Violation>) -> bool {
     match b {
         Some(v) => v.signature == a.signature,
@@ -218,7 +229,7 @@ fn minimise(spec: &Spec, prop: &str, viol: &Violation, concrete: &Option<serde_j
     // 0. a violation inside a macro operation: replay the concrete single operation alone
     if let Some(c) = concrete {
         if let Some(cand) = with_single_op(spec, c) {
-            let r = exec(&cand, prop);
+            let r = exec_noted(&cand, prop);
             execs += 1;
             if same_failure(viol, &r.violation) {
                 return (cand, r.violation.unwrap(), execs);
@@ -234,7 +245,7 @@ fn minimise(spec: &Spec, prop: &str, viol: &Violation, concrete: &Option<serde_j
     let mut cur = keep_ops(spec, &keep);
     let mut cur_v = viol.clone();
     {
-        let r = exec(&cur, prop);
+        let r = exec_noted(&cur, prop);
         execs += 1;
         if !same_failure(viol, &r.violation) {
             return (spec.clone(), viol.clone(), execs);
@@ -252,7 +263,7 @@ fn minimise(spec: &Spec, prop: &str, viol: &Violation, concrete: &Option<serde_j
             let end = (start + chunk).min(len_now);
             let keep: Vec<bool> = (0..len_now).map(|i| i < start || i >= end).collect();
             let cand = keep_ops(&cur, &keep);
-            let r = exec(&cand, prop);
+            let r = exec_noted(&cand, prop);
             execs += 1;
             if same_failure(viol, &r.violation) {
                 cur = cand;
@@ -278,7 +289,7 @@ fn minimise(spec: &Spec, prop: &str, viol: &Violation, concrete: &Option<serde_j
     while i < ops_len(&cur) && execs < max_execs {
         let mut improved = false;
         for cand in simplify_candidates(&cur, i) {
-            let r = exec(&cand, prop);
+            let r = exec_noted(&cand, prop);
             execs += 1;
             if same_failure(viol, &r.violation) {
                 cur = cand;
@@ -347,6 +358,9 @@ fn cmd_run(args: &[String]) {
     let offset: u64 = arg(args, "--offset").and_then(|s| s.parse().ok()).unwrap_or(0);
     let out = arg(args, "--out").unwrap_or_else(|| harness_error("--out"));
     let status = arg(args, "--status");
+    if let Some(sf) = status {
+        let _ = STATUS_PATH.set(sf.to_string());
+    }
     let want_fps = flag(args, "--fps");
     let fps_limit: u64 = arg(args, "--fps-limit").and_then(|s| s.parse().ok()).unwrap_or(u64::MAX);
     let no_min = flag(args, "--no-minimise");
